@@ -17,7 +17,7 @@ RULE = ("case = (struct type shape, construction flavour (@bitstruct / mk_bitstr
 ASSUMPTIONS = [
   "spec layout is the one stated in the property: first field most significant, list element 0 least significant",
 ]
-QUICK_S = 60
+QUICK_S = 240
 THOROUGH_S = 900
 
 
